@@ -1,12 +1,431 @@
-//! C01 — not built yet (stub).
+//! C01 — no value is created: accepted transactions and blocks balance.
 
 use crate::engine::*;
-use serde_json::Value;
+use crate::world::gen::*;
+use crate::world::tamper::*;
+use crate::world::*;
+use crate::{ensure, fail};
+use grin_core::consensus;
+use grin_core::core::hash::Hashed;
+use grin_core::core::transaction::Weighting;
+use grin_keychain::BlindingFactor;
+use grin_util::secp::pedersen::Commitment;
+use grin_util::static_secp_instance;
+use proptest::prelude::*;
+use serde_derive::{Deserialize, Serialize};
+use serde_json::{json, Value};
 
-pub fn run(_ctx: &Ctx) -> HResult<()> {
-	Err(HarnessError("C01 check not built yet".into()))
+// ------------------------------------------------------------------ part (a): transactions
+
+#[derive(Clone, Debug, Serialize, Deserialize)]
+pub struct RawSpec {
+	pub n_in: u8,
+	pub in_split: Vec<u16>,
+	pub outs: Vec<(u8, u8)>,
+	pub kernels: Vec<(u8, u64, u8, u16)>, // kind, fee, shift, lock
+	pub zero_offset: bool,
+	pub picks: Vec<u16>,
 }
 
-pub fn replay(_ctx: &Ctx, _part: &str, _case: &Value) -> PResult {
+fn raw_spec() -> impl Strategy<Value = RawSpec> {
+	(
+		1u8..=4,
+		prop::collection::vec(any::<u16>(), 4),
+		prop::collection::vec((0u8..6, 0u8..6), 1..=6),
+		prop::collection::vec(
+			(
+				prop_oneof![5 => Just(0u8), 2 => Just(1u8), 2 => Just(2u8)],
+				prop_oneof![3 => 1u64..10, 2 => 1u64..5_000_000, 1 => (1u64 << 39)..(1u64 << 40), 1 => Just((1u64 << 40) - 1)],
+				0u8..16,
+				1u16..1000,
+			),
+			1..=3,
+		),
+		any::<bool>(),
+		prop::collection::vec(any::<u16>(), 4),
+	)
+		.prop_map(|(n_in, in_split, outs, kernels, zero_offset, picks)| RawSpec {
+			n_in,
+			in_split,
+			outs,
+			kernels,
+			zero_offset,
+			picks,
+		})
+}
+
+fn resolve_spec(r: &RawSpec) -> TxSpec {
+	// outputs from a small universe (memoised proofs); distinct commitments
+	let mut outputs: Vec<OutRef> = vec![];
+	for (a, k) in &r.outs {
+		let mut o = OutRef {
+			amount: AMT_MENU[*a as usize % 6],
+			key: *k as u32,
+			cb: false,
+		};
+		while outputs.contains(&o) {
+			o.key += 6;
+		}
+		outputs.push(o);
+	}
+	let kernels: Vec<KernelSpec> = r
+		.kernels
+		.iter()
+		.map(|(kind, fee, shift, lock)| KernelSpec {
+			kind: match kind {
+				0 => KKind::Plain,
+				1 => KKind::HeightLocked,
+				_ => KKind::Nrd,
+			},
+			fee: *fee,
+			shift: *shift,
+			lock: if *kind == 0 { 0 } else { *lock as u64 },
+			excess_tag: 0,
+		})
+		.collect();
+	let total: u128 = outputs.iter().map(|o| o.amount as u128).sum::<u128>() + kernels.iter().map(|k| k.fee as u128).sum::<u128>();
+	// inputs: n-1 small random amounts and the remainder
+	let n_in = r.n_in.max(1) as usize;
+	let mut inputs = vec![];
+	let mut left = total;
+	for i in 0..n_in {
+		let amt = if i + 1 == n_in {
+			left
+		} else {
+			let a = 1 + (r.in_split[i % r.in_split.len()] as u128 * (left.saturating_sub((n_in - i) as u128)).max(1) >> 17);
+			a.min(left - (n_in - i - 1) as u128).max(1)
+		};
+		left -= amt;
+		inputs.push(OutRef {
+			amount: amt as u64,
+			key: 300 + i as u32,
+			cb: false,
+		});
+	}
+	TxSpec {
+		inputs,
+		outputs,
+		kernels,
+		zero_offset: r.zero_offset,
+	}
+}
+
+pub fn tx_case(ctx: &Ctx, r: &RawSpec, counting: bool) -> PResult {
+	init_thread();
+	let ev = &ctx.ev;
+	let spec = resolve_spec(r);
+	if !spec.balanced() || spec.inputs.iter().any(|i| i.amount == 0) {
+		fail!("harness:unbalanced-spec", "generator produced an unbalanced spec {:?}", spec);
+	}
+	let (tx, _) = assemble(&spec);
+	let base = tx.validate(Weighting::AsTransaction);
+	if let Err(e) = &base {
+		// over the test block weight limit is a legitimate refusal; anything else is not
+		if tx.weight() > grin_core::global::max_block_weight() {
+			if counting {
+				ev.class("tx_over_weight_limit_skipped");
+			}
+			return Ok(());
+		}
+		fail!("valid-tx-rejected", "valid transaction rejected: {} spec {:?}", err_name(e), spec);
+	}
+	if counting {
+		ev.eval();
+		ev.class("valid_tx_accepted");
+	}
+	for (ci, t) in tx_catalogue().into_iter().enumerate() {
+		let pick = r.picks[ci % r.picks.len()] as usize;
+		let t0 = std::time::Instant::now();
+		let Some((bad, still_valid)) = tamper_tx(&spec, t, pick) else { continue };
+		let t1 = t0.elapsed();
+		let res = bad.validate(Weighting::AsTransaction);
+		if std::env::var("GV_DEBUG").is_ok() {
+			eprintln!("{:?}: tamper {:.1}ms validate {:.1}ms outs {}", t, t1.as_secs_f64() * 1e3, (t0.elapsed() - t1).as_secs_f64() * 1e3, bad.outputs().len());
+		}
+		if counting {
+			ev.eval();
+			ev.class(&format!("tx_corruption:{:?}", t));
+			ev.nontrivial(&("tx", spec.inputs.len(), spec.outputs.len(), spec.kernels.iter().map(|k| k.kind).collect::<Vec<_>>(), t));
+		}
+		if still_valid {
+			ensure!(res.is_ok(), format!("control-rejected:{:?}", t), "control mutation {:?} (still balanced, re-signed) rejected: {:?} spec {:?}", t, res.err().map(|e| err_name(&e)), spec);
+		} else {
+			ensure!(res.is_err(), format!("corrupt-tx-accepted:{:?}", t), "corrupted transaction ({:?}, pick {}) accepted; spec {:?}", t, pick, spec);
+		}
+	}
 	Ok(())
+}
+
+// ------------------------------------------------------------------ part (b,c): blocks
+
+#[derive(Clone, Debug, Serialize, Deserialize)]
+pub struct BlockCase {
+	/// empty blocks before the base block (coinbases to spend)
+	pub prefix: u8,
+	pub txs: Vec<RawTx>,
+	pub picks: Vec<u16>,
+	pub dt: u16,
+}
+
+fn block_case() -> impl Strategy<Value = BlockCase> {
+	(5u8..=9, prop::collection::vec(raw_tx(), 0..=3), prop::collection::vec(any::<u16>(), 6), 1u16..300).prop_map(|(prefix, txs, picks, dt)| BlockCase { prefix, txs, picks, dt })
+}
+
+/// Σ commitments (None for an empty sum)
+pub fn sum_commits(pos: Vec<Commitment>, neg: Vec<Commitment>) -> Result<Commitment, String> {
+	let secp = static_secp_instance();
+	let secp = secp.lock();
+	secp.commit_sum(pos, neg).map_err(|e| format!("{:?}", e))
+}
+
+/// stored running sums of the head equal sums recomputed from the model,
+/// and the full-state equation holds
+pub fn check_sums(cb: &ChainBox, model: &Model, when: &str) -> PResult {
+	let chain = cb.c();
+	let head = chain.head().map_err(|e| Fail::new("head-err", format!("{:?}", e)))?;
+	if head.height == 0 {
+		return Ok(());
+	}
+	let sums = chain.get_block_sums(&head.last_block_h).map_err(|e| Fail::new("block-sums-missing", format!("{}: {:?}", when, e)))?;
+	let secp = static_secp_instance();
+	let utxo: Vec<Commitment> = model.utxo.keys().map(|k| Commitment::from_vec(k.clone())).collect();
+	let utxo_sum = sum_commits(utxo, vec![]).map_err(|e| Fail::new("harness:sum", e))?;
+	let kern_sum = sum_commits(model.kernel_excesses.clone(), vec![]).map_err(|e| Fail::new("harness:sum", e))?;
+	ensure!(sums.kernel_sum == kern_sum, "stored-kernel-sum", "{}: stored kernel_sum differs from Σ kernel excesses of the replayed history (h={})", when, head.height);
+	// full-state equation: Σ unspent − supply·H == Σ kernels + offset·G
+	let supply = consensus::REWARD * head.height;
+	let (lhs, rhs) = {
+		let secp = secp.lock();
+		let sh = secp.commit_value(supply).map_err(|e| Fail::new("harness:sum", format!("{:?}", e)))?;
+		let lhs = secp.commit_sum(vec![utxo_sum], vec![sh]).map_err(|e| Fail::new("harness:sum", format!("{:?}", e)))?;
+		let off = model.total_offset.clone().unwrap_or(BlindingFactor::zero());
+		let rhs = if off.is_zero() {
+			kern_sum
+		} else {
+			let og = secp.commit(0, off.secret_key(&secp).map_err(|e| Fail::new("harness:sum", format!("{:?}", e)))?).map_err(|e| Fail::new("harness:sum", format!("{:?}", e)))?;
+			secp.commit_sum(vec![kern_sum, og], vec![]).map_err(|e| Fail::new("harness:sum", format!("{:?}", e)))?
+		};
+		(lhs, rhs)
+	};
+	// the stored "utxo_sum" is Σ unspent − supply·H (every block's overage is folded in)
+	ensure!(sums.utxo_sum == lhs, "stored-utxo-sum", "{}: stored utxo_sum differs from Σ unspent − supply·H recomputed from the replayed state (h={})", when, head.height);
+	ensure!(lhs == rhs, "full-state-equation", "{}: Σunspent − supply·H != Σkernels + offset·G at height {}", when, head.height);
+	Ok(())
+}
+
+pub fn block_case_run(ctx: &Ctx, c: &BlockCase, counting: bool) -> PResult {
+	init_thread();
+	let ev = &ctx.ev;
+	let dir = ctx.scratch_dir("c01");
+	let cb = ChainBox::open(&dir).map_err(|e| Fail::new("init-fresh", e))?;
+	let mut w = World::new(&cb.genesis, true);
+	let mut head = 0usize;
+	for _ in 0..c.prefix {
+		let raw = RawBlock {
+			parent: 0,
+			cb_key: 0,
+			txs: vec![],
+			dt: 60,
+			diff: 1,
+			neg: Neg::None,
+			neg_pick: 0,
+		};
+		let built = w.build(cb.c(), &raw, head).map_err(|e| Fail::new("builder", e))?;
+		let m = built.verdict.clone().map_err(|e| Fail::new("harness:model", format!("{:?}", e)))?;
+		cb.c().process_block(built.block.clone(), opts(PowMode::Real)).map_err(|e| Fail::new("valid-block-rejected", format!("prefix block: {}", err_name(&e))))?;
+		head = w.push(&built, m);
+	}
+	// resolve the base block's transactions against the model (reuses the
+	// C02 interpreter, keeps the specs by rebuilding them here)
+	let raw = RawBlock {
+		parent: 0,
+		cb_key: 1,
+		txs: c.txs.clone(),
+		dt: c.dt,
+		diff: 1,
+		neg: Neg::None,
+		neg_pick: 0,
+	};
+	let specs = w.resolve_specs(&raw, head);
+	// leave room for a second coinbase output + kernel (SplitReward control)
+	let mut specs = specs;
+	while block_weight(&specs) + 2 * 24 > grin_core::global::max_block_weight() {
+		specs.pop();
+	}
+	for s in &specs {
+		for o in s.inputs.iter().chain(s.outputs.iter()) {
+			w.note(o);
+		}
+	}
+	let prev = w.nodes[head].block.header.clone();
+	let cb_key = (prev.height as u32 + 1) * 4 + 1;
+	let mut head_before = cb.c().head().map_err(|e| Fail::new("head-err", format!("{:?}", e)))?;
+	let mut cat = block_catalogue();
+	// the honest block somewhere in the middle: valid siblings that come later
+	// are accepted as forks, corrupted ones must still be refused
+	cat.insert(c.picks[0] as usize % cat.len(), BlockT::Untouched);
+	for (ci, t) in cat.into_iter().enumerate() {
+		let pick = c.picks[ci % c.picks.len()] as usize + ci;
+		let tb = tampered_block(cb.c(), &prev, &specs, cb_key, c.dt as i64, t, pick).map_err(|e| Fail::new("builder", format!("{:?}: {}", t, e)))?;
+		let Some(tb) = tb else { continue };
+		if counting {
+			ev.eval();
+			ev.class(&format!("block_corruption:{:?}", t).split('(').next().unwrap().to_string());
+			ev.class(&format!("expected_stage:{:?}", tb.stage));
+			ev.nontrivial(&("block", specs.len(), specs.iter().map(|s| (s.inputs.len(), s.outputs.len(), s.kernels.len())).collect::<Vec<_>>(), t));
+		}
+		// stateless body validation
+		let bv = tb.block.validate(&prev.total_kernel_offset);
+		match tb.stage {
+			Stage::Valid => ensure!(bv.is_ok(), format!("valid-block-body-rejected:{:?}", t), "Block::validate rejected a valid block ({:?}): {:?}", t, bv.err().map(|e| err_name(&e))),
+			Stage::BodyValidation | Stage::CoinbaseRule => ensure!(bv.is_err(), format!("corrupt-block-body-accepted:{:?}", t), "Block::validate accepted a corrupted block ({:?}, pick {})", t, pick),
+			_ => {}
+		}
+		let res = cb.c().process_block(tb.block.clone(), opts(PowMode::Real));
+		if tb.valid {
+			match res {
+				Ok(tip) => {
+					if counting {
+						ev.class(if t == BlockT::Untouched { "honest_blocks_accepted" } else { "control_blocks_accepted" });
+					}
+					if tip.is_some() {
+						// first valid block of the catalogue became the head
+						let m = w.nodes[head].model.apply(&tb.block).map_err(|e| Fail::new("harness:model", format!("{:?}", e)))?;
+						check_sums(&cb, &m, "after valid block")?;
+						cb.c().validate(false).map_err(|e| Fail::new("validate-failed", format!("{:?}", e)))?;
+						head_before = cb.c().head().map_err(|e| Fail::new("head-err", format!("{:?}", e)))?;
+					}
+				}
+				Err(e) => fail!(format!("valid-block-rejected:{:?}", t), "valid block ({:?}) rejected: {}", t, err_name(&e)),
+			}
+		} else {
+			ensure!(res.is_err(), format!("corrupt-block-accepted:{:?}", t), "corrupted block ({:?}, pick {}, expected stage {:?}) accepted; specs {:?}", t, pick, tb.stage, specs);
+			let h = cb.c().head().map_err(|e| Fail::new("head-err", format!("{:?}", e)))?;
+			ensure!(h.last_block_h == head_before.last_block_h, "head-moved-by-rejected-block", "head changed by rejected block {:?}", t);
+		}
+	}
+	Ok(())
+}
+
+fn block_weight(specs: &[TxSpec]) -> u64 {
+	24 + specs
+		.iter()
+		.map(|s| grin_core::core::Transaction::weight_by_iok(s.inputs.len() as u64, s.outputs.len() as u64, s.kernels.len() as u64))
+		.sum::<u64>()
+}
+
+// ------------------------------------------------------------------ part (d): histories
+
+#[derive(Clone, Debug, Serialize, Deserialize)]
+pub struct History {
+	pub blocks: Vec<RawBlock>,
+}
+
+fn history() -> impl Strategy<Value = History> {
+	let blk = (raw_block(6), prop_oneof![8 => Just(0u8), 5 => Just(1u8), 3 => 2u8..6, 4 => 101u8..105]).prop_map(|(mut b, p)| {
+		b.parent = p;
+		b
+	});
+	prop::collection::vec(blk, 4..=18).prop_map(|blocks| History { blocks })
+}
+
+pub fn history_run(ctx: &Ctx, h: &History, counting: bool) -> PResult {
+	init_thread();
+	let ev = &ctx.ev;
+	let dir = ctx.scratch_dir("c01h");
+	let cb = ChainBox::open(&dir).map_err(|e| Fail::new("init-fresh", e))?;
+	let mut w = World::new(&cb.genesis, true);
+	let mut head = 0usize;
+	let (mut reorgs, mut spends) = (0u32, 0u32);
+	for (i, raw) in h.blocks.iter().enumerate() {
+		let built = w.build(cb.c(), raw, head).map_err(|e| Fail::new("builder", format!("op {}: {}", i, e)))?;
+		let res = cb.c().process_block(built.block.clone(), opts(PowMode::Real));
+		match (&built.verdict, res) {
+			(Ok(m), Ok(tip)) => {
+				let n = w.push(&built, m.clone());
+				spends += built.n_spends as u32;
+				if tip.is_some() {
+					if built.parent != head {
+						reorgs += 1;
+					}
+					head = n;
+					check_sums(&cb, &w.nodes[head].model, &format!("after op {}", i))?;
+					cb.c().validate(true).map_err(|e| Fail::new("fast-validate-failed", format!("op {}: {:?}", i, e)))?;
+				}
+			}
+			(Ok(_), Err(e)) => fail!("valid-block-rejected", "op {}: {}", i, err_name(&e)),
+			(Err(why), Ok(_)) => fail!(format!("invalid-block-accepted:{:?}", built.neg), "op {}: {:?}", i, why),
+			(Err(_), Err(_)) => {}
+		}
+	}
+	cb.c().validate(false).map_err(|e| Fail::new("validate-failed", format!("final: {:?}", e)))?;
+	// every best-chain block's stored sums equal the model's
+	let mut a = head;
+	while a != 0 {
+		let sums = cb.c().get_block_sums(&w.nodes[a].hash()).map_err(|e| Fail::new("block-sums-missing", format!("{:?}", e)))?;
+		let m = &w.nodes[a].model;
+		let supply_h = {
+			let secp = static_secp_instance();
+			let secp = secp.lock();
+			secp.commit_value(consensus::REWARD * m.height).map_err(|e| Fail::new("harness:sum", format!("{:?}", e)))?
+		};
+		let us = sum_commits(m.utxo.keys().map(|k| Commitment::from_vec(k.clone())).collect(), vec![supply_h]).map_err(|e| Fail::new("harness:sum", e))?;
+		let ks = sum_commits(m.kernel_excesses.clone(), vec![]).map_err(|e| Fail::new("harness:sum", e))?;
+		ensure!(sums.utxo_sum == us && sums.kernel_sum == ks, "stored-sums-ancestor", "stored sums of best-chain block at height {} differ from recomputed", m.height);
+		a = w.nodes[a].parent;
+	}
+	if counting {
+		ev.eval();
+		if reorgs > 0 {
+			ev.class("histories_with_reorg");
+		}
+		if spends > 0 && reorgs > 0 {
+			ev.nontrivial(&("hist", reorgs.min(5), spends.min(20), h.blocks.len()));
+		}
+	}
+	Ok(())
+}
+
+pub fn run(ctx: &Ctx) -> HResult<()> {
+	init_global();
+	let ev = &ctx.ev;
+	ev.rule("(a) valid transactions assembled from generated input/output/kernel multisets (1-4 inputs, 1-6 outputs, 1-3 kernels of all variants, fee up to 2^40-1, shift 0-15, zero or non-zero offset) and EVERY entry of the single-field corruption catalogue (incl. re-signed fee changes and controls that stay valid); (b) blocks of 0-3 transactions on a short real-PoW chain with EVERY block-level corruption (forged/compensated coinbase, flags, offset, roots, sizes, header rules, tx-level corruptions inside the block) through Block::validate and Chain::process_block; (c) fork/reorg histories with stored block sums compared after every head change with sums recomputed from the replay model through libsecp and the full-state equation; non-trivial = corruption whose untouched twin was accepted in the same case / history with a spend and a reorg; distinct by (body shape, corruption id)");
+	ev.assume("verdict of each corruption derived from first principles (balance equation, signature coverage, proof/commitment binding); libsecp256k1-zkp trusted for commit sums");
+	let procs = 16;
+	if let Some((case, f)) = pbt_proc(ctx, "tx", ctx.n(480, 6000), procs) {
+		ctx.report("tx", &f.sig, case, &f.msg);
+	}
+	eprintln!("part tx done at {:.1}s", ctx.start.elapsed().as_secs_f64());
+	if let Some((case, f)) = pbt_proc(ctx, "block", ctx.n(96, 1200), procs) {
+		ctx.report("block", &f.sig, case, &f.msg);
+	}
+	eprintln!("part block done at {:.1}s", ctx.start.elapsed().as_secs_f64());
+	if let Some((case, f)) = pbt_proc(ctx, "history", ctx.n(96, 1200), procs) {
+		ctx.report("history", &f.sig, case, &f.msg);
+	}
+	eprintln!("part history done at {:.1}s", ctx.start.elapsed().as_secs_f64());
+	ev.sample("tx", || serde_json::to_value(resolve_spec(&sample_one(ctx.derive_seed("s", 0), &raw_spec()))).unwrap());
+	ev.sample("block", || serde_json::to_value(sample_one(ctx.derive_seed("s", 1), &block_case())).unwrap());
+	Ok(())
+}
+
+pub fn part(ctx: &Ctx, part: &str, seed: u64, cases: u32) -> Option<(Value, Fail)> {
+	init_global();
+	match part {
+		"tx" => run_part(ctx, seed, cases, &raw_spec(), |c, counting| tx_case(ctx, c, counting)),
+		"block" => run_part(ctx, seed, cases, &block_case(), |c, counting| block_case_run(ctx, c, counting)),
+		"history" => run_part(ctx, seed, cases, &history(), |c, counting| history_run(ctx, c, counting)),
+		_ => None,
+	}
+}
+
+pub fn replay(ctx: &Ctx, part: &str, case: &Value) -> PResult {
+	init_global();
+	let bad = |e: serde_json::Error| Fail::new("harness:replay-parse", e.to_string());
+	match part {
+		"tx" => tx_case(ctx, &serde_json::from_value(case.clone()).map_err(bad)?, false),
+		"block" => block_case_run(ctx, &serde_json::from_value(case.clone()).map_err(bad)?, false),
+		"history" => history_run(ctx, &serde_json::from_value(case.clone()).map_err(bad)?, false),
+		_ => Ok(()),
+	}
 }
